@@ -67,7 +67,7 @@ type Case struct {
 	Front     string `json:"front"`   // drc | do-approve
 	Host      string `json:"host"`    // ok other prefix shorter case
 	Marker    string `json:"marker"`  // present absent unconfigured
-	HA        string `json:"ha"`      // off active passive active-primary active-secondary passive-then-active
+	HA        string `json:"ha"`      // off | ap:<state> (Active-Passive) | aa:<state> (Active-Active) | xx:<state> (unknown mode) | passive-then-active
 	Pending   int    `json:"pending"` // 0 = none, 1.. = variants of pending changes
 	HostKey   bool   `json:"host_key,omitempty"`
 	Login     string `json:"login,omitempty"`
@@ -77,6 +77,14 @@ type Case struct {
 	FaultAt   int    `json:"fault_at"` // -1 none; applies to the compare run only
 	FaultKind string `json:"fault_kind,omitempty"`
 	Perl      bool   `json:"perl,omitempty"` // use the repository's testdata/simulate-cisco.pl (Linux corpus cases)
+	NoLog     bool   `json:"no_log,omitempty"`     // drc without -L (do-approve always passes a log directory)
+	OddAction bool   `json:"odd_action,omitempty"` // do-approve <Action> DEVICE with an arbitrary action word
+	Action    string `json:"action,omitempty"`
+}
+
+// haPermits: the HA answers under which PAN-OS may be configured (specification side).
+func haPermits(ha string) bool {
+	return ha == "off" || ha == "ap:active" || ha == "aa:active-primary" || ha == "passive-then-active"
 }
 
 func (c Case) canon() string { return JSONStr(c) }
@@ -102,7 +110,7 @@ func (c Case) interlock() string {
 	switch {
 	case c.Backend != "nsx" && c.Host != "ok":
 		return "hostname"
-	case c.Backend == "panos" && (c.HA == "passive" || c.HA == "active-secondary"):
+	case c.Backend == "panos" && !haPermits(c.HA):
 		return "ha"
 	case c.Backend == "panos" && c.Marker == "absent":
 		return "marker"
@@ -199,20 +207,24 @@ func (c Case) httpNetspoc() string {
 }
 
 func (c Case) haStates() []HAState {
-	switch c.HA {
-	case "active":
-		return []HAState{{"yes", "Active-Passive", "active"}}
-	case "passive":
-		return []HAState{{"yes", "Active-Passive", "passive"}}
-	case "active-primary":
-		return []HAState{{"yes", "Active-Active", "active-primary"}}
-	case "active-secondary":
-		return []HAState{{"yes", "Active-Active", "active-secondary"}}
-	case "passive-then-active":
+	switch {
+	case c.HA == "passive-then-active":
 		return []HAState{{"yes", "Active-Passive", "passive"}, {"yes", "Active-Passive", "active"}}
+	case strings.HasPrefix(c.HA, "ap:"):
+		return []HAState{{"yes", "Active-Passive", c.HA[3:]}}
+	case strings.HasPrefix(c.HA, "aa:"):
+		return []HAState{{"yes", "Active-Active", c.HA[3:]}}
+	case strings.HasPrefix(c.HA, "xx:"):
+		return []HAState{{"yes", "Active-Standby", c.HA[3:]}}
 	}
 	return []HAState{{Enabled: "no"}}
 }
+
+// every state a member can report, per mode (plus an unknown word and an unknown mode)
+var haAll = []string{"off",
+	"ap:active", "ap:passive", "ap:suspended", "ap:initial", "ap:non-functional", "ap:tentative", "ap:unknown-word", "ap:active-primary",
+	"aa:active-primary", "aa:active-secondary", "aa:tentative", "aa:suspended", "aa:initial", "aa:non-functional", "aa:active", "aa:unknown-word",
+	"xx:active", "xx:active-primary"}
 
 func (c Case) names() []string {
 	if c.Backend == "panos" && c.HA == "passive-then-active" {
@@ -245,7 +257,9 @@ type runResult struct {
 }
 
 func (r runResult) diag() bool {
-	return strings.Contains(r.stderr, "ERROR>>>") || strings.Contains(r.stdout, "ERROR>>>")
+	// an ERROR>>> line, or the usage message of a front end
+	return strings.Contains(r.stderr, "ERROR>>>") || strings.Contains(r.stdout, "ERROR>>>") ||
+		strings.Contains(r.stderr, "Usage:")
 }
 
 type world struct {
@@ -327,9 +341,15 @@ func (w *world) runOnce(c Case, compare bool, tag string) runResult {
 		if compare {
 			verb = "compare"
 		}
+		if c.OddAction {
+			verb = c.Action
+		}
 		args = []string{"run", "do-approve", verb, devName}
 	} else {
-		args = []string{"run", "drc", "-L", filepath.Join(w.dir, "log")}
+		args = []string{"run", "drc"}
+		if !c.NoLog {
+			args = append(args, "-L", filepath.Join(w.dir, "log"))
+		}
 		if compare {
 			args = append(args, "-C")
 		}
@@ -466,6 +486,9 @@ func modelLine(c Case, compare bool, plan []string) string {
 	mode := "approve"
 	if compare {
 		mode = "compare"
+	}
+	if c.OddAction {
+		mode = "do:" + c.Action
 	}
 	banner := "NetSPoC"
 	if c.Marker == "unconfigured" {
@@ -750,7 +773,7 @@ func matrix(ctx *Ctx, prop string) []Case {
 	for _, b := range []string{"asa", "ios", "linux", "panos", "nsx"} {
 		has := []string{"off"}
 		if b == "panos" {
-			has = []string{"off", "active", "passive", "active-primary", "active-secondary"}
+			has = []string{"off", "ap:active", "ap:passive", "aa:active-primary", "aa:active-secondary"}
 		}
 		for _, fr := range fronts {
 			for _, h := range hosts {
@@ -771,8 +794,33 @@ func matrix(ctx *Ctx, prop string) []Case {
 			}
 		}
 	}
+	// every HA state of every mode, both front ends, with and without pending changes
+	for _, ha := range haAll {
+		for _, fr := range fronts {
+			for _, pend := range []int{0, 1} {
+				out = append(out, Case{Backend: "panos", Front: fr, Host: "ok", Marker: "present", HA: ha, Pending: pend, FaultAt: -1})
+			}
+		}
+	}
+	// drc without a log directory (-L): compare must end without applying, approve must still obey the gate
+	for _, b := range []string{"asa", "ios", "linux", "panos", "nsx"} {
+		for _, m := range []string{"present", "absent"} {
+			for _, pend := range []int{0, 1, 2} {
+				out = append(out, Case{Backend: b, Front: "drc", Host: "ok", Marker: m, HA: "off", Pending: pend, FaultAt: -1, NoLog: true})
+			}
+		}
+	}
+	// do-approve with action words other than exactly compare/approve: usage, exit 1, no device contact
+	for _, b := range []string{"asa", "ios", "linux", "panos", "nsx"} {
+		for _, wd := range oddWords {
+			out = append(out, Case{Backend: b, Front: "do-approve", Host: "ok", Marker: "present", HA: "off", Pending: 1, FaultAt: -1,
+				OddAction: true, Action: wd})
+		}
+	}
 	return out
 }
+
+var oddWords = []string{"comp", "c", "compar", "Compare", "COMPARE", "compare ", "compares", "approv", "a", "Approve", "approve-all", "", "diff"}
 
 // randomCase: the same axes plus the login variants and pending-change variants, seeded.
 func randomCase(r *RNG, prop string) Case {
@@ -794,7 +842,10 @@ func randomCase(r *RNG, prop string) Case {
 	case "linux":
 		c.Login = Pick(r, []string{"pass", "nopass"})
 	case "panos":
-		c.HA = Pick(r, []string{"off", "active", "passive", "active-primary", "active-secondary", "passive-then-active"})
+		c.HA = Pick(r, append([]string{"passive-then-active", "off", "ap:active", "aa:active-primary"}, haAll...))
+	}
+	if c.Front == "drc" {
+		c.NoLog = r.Chance(30)
 	}
 	c.BadConfig = b != "linux" && r.Chance(6)
 	if prop == "C11" && r.Chance(60) {
@@ -822,7 +873,26 @@ type outcome struct {
 func evalCase(w *world, drv *Nadrv, c Case, prop string) outcome {
 	o := outcome{c: c}
 	w.prepare(c)
+	if c.OddAction {
+		// one run: do-approve <word> DEVICE; stored in the compare slot
+		o.cmp = w.runOnce(c, true, "odd")
+		o.mcmp = parseModel(c, drv.Ask(modelLine(c, true, []string{"<unknown>"})))
+		os.RemoveAll(w.dir)
+		return o
+	}
+	var auxPlan []string
+	if c.NoLog {
+		// without -L compare leaves no .cmp file: learn the pending changes from an auxiliary run with -L
+		aux := c
+		aux.NoLog = false
+		aux.FaultAt = -1
+		r := w.runOnce(aux, true, "aux")
+		auxPlan = r.plan
+	}
 	o.cmp = w.runOnce(c, true, "cmp")
+	if c.NoLog {
+		o.cmp.plan = auxPlan
+	}
 	o.mcmp = parseModel(c, drv.Ask(modelLine(c, true, nil)))
 	if prop == "C06" || c.FaultAt < 0 {
 		plan := o.cmp.plan
@@ -863,7 +933,7 @@ func judge(res *Result, o outcome, prop string, mu *sync.Mutex) {
 	defer mu.Unlock()
 	c := o.c
 	il := c.interlock()
-	nontrivial := il != "" || c.FaultAt >= 0 || c.Pending > 0
+	nontrivial := il != "" || c.FaultAt >= 0 || c.Pending > 0 || c.OddAction
 	res.Eval(c.canon(), nontrivial)
 	res.Count("backend:" + c.Backend)
 	res.Count("front:" + c.Front)
@@ -872,6 +942,10 @@ func judge(res *Result, o outcome, prop string, mu *sync.Mutex) {
 	res.Count("ha:" + c.HA)
 	res.Count(fmt.Sprintf("pending:%d", c.Pending))
 	res.Count("interlock:" + map[bool]string{true: il, false: "none"}[il != ""])
+	res.Count("logdir:" + map[bool]string{true: "not-given", false: "given"}[c.NoLog])
+	if c.OddAction {
+		res.Count("action-word:" + strconv.Quote(c.Action))
+	}
 	if c.FaultAt >= 0 {
 		res.Count("fault:" + c.FaultKind)
 		res.Count(fmt.Sprintf("fault-at:%02d", c.FaultAt))
@@ -927,6 +1001,30 @@ func judge(res *Result, o outcome, prop string, mu *sync.Mutex) {
 			}
 		}
 		res.Count(tag + ":exit=" + strconv.Itoa(implExit))
+	}
+	if c.OddAction {
+		cmpRun("odd-action", o.cmp, o.mcmp)
+		// oracle: a word other than exactly compare/approve ends with usage, exit 1, no device contact
+		r := o.cmp
+		bad := ""
+		switch {
+		case len(r.lines) > 0:
+			bad = fmt.Sprintf("the device was contacted (%d requests, first: %q)", len(r.lines), r.lines[0])
+		case r.exit != 1:
+			bad = fmt.Sprintf("exit status %d instead of 1", r.exit)
+		case !strings.Contains(r.stderr, "Usage:"):
+			bad = "no usage message"
+		}
+		if ch, i := hasChange(r.kinds); ch {
+			bad += "; configuration-changing request sent: " + r.lines[i]
+		}
+		if bad != "" {
+			res.Fail(map[string]any{"pred": "doapprove_action_word_not_exact", "backend": c.Backend},
+				fmt.Sprintf("do-approve %q %s: %s", c.Action, devName, bad), c)
+		} else {
+			res.Count("usage:odd-action")
+		}
+		return
 	}
 	cmpRun("compare", o.cmp, o.mcmp)
 	if o.ranApr {
